@@ -391,12 +391,14 @@ fn run_mem_session(p: &Prog, lines: &[String], res: &mut Res) {
                                 if truth != bytes { res.fail("read-returns-wrong-bytes", format!("read_memory(window+{off}, {n}) = {} but /proc/pid/mem holds {}", hex(&bytes), hex(&truth)), rp); }
                             }
                             res.count(if n == 0 { "read.ok.empty" } else if (off % 8) + n > 8 { "read.ok.multiword" } else { "read.ok.oneword" });
+                            if n % 8 != 0 && !lv.all_mapped(off, span) { res.count(if n < 8 { "read.ok.tail_of_mapping.short" } else { "read.ok.tail_of_mapping.long" }); }
                             format!("ok {}", hex(&bytes))
                         }
                         Ok(Err(e)) => {
                             if mapped {
+                                // (repaired by 37b4832: the key stays, a regression is a VIOLATION)
                                 if !lv.all_mapped(off, span) {
-                                    res.fail("read-tail-of-mapping-eio", format!("read_memory(window+{off}, {n}): [a,a+n) is mapped and ends {} byte(s) before the end of its mapping, the read fails ({e}) because the last word peek runs past the mapping", off + span - (off + n)), rp);
+                                    res.fail("read-tail-of-mapping-eio", format!("read_memory(window+{off}, {n}): [a,a+n) is mapped and ends {} byte(s) before the end of its mapping, the read fails ({e}): the last word peek runs past the mapping", off + span - (off + n)), rp);
                                 } else { res.fail("read-of-mapped-range-fails", format!("read_memory(window+{off}, {n}) failed ({e}) although the whole word span is mapped"), rp); }
                             }
                             res.count(if mapped { "read.err.mapped_range" } else { "read.err.unmapped" });
@@ -589,6 +591,8 @@ fn spec_parse(kind: &str, s: &str) -> Option<Option<Vec<u8>>> {
     let (neg, digits) = match body.strip_prefix('-') { Some(d) => (true, d), None => (false, body.strip_prefix('+').unwrap_or(body)) };
     if digits.is_empty() || !digits.chars().all(|c| c.is_digit(radix)) { return None; } // not a number at all: no opinion
     let mag = u128::from_str_radix(digits, radix).ok()?;
+    // "-0" for an unsigned type: Rust's own unsigned parsers refuse a minus sign; either answer is acceptable
+    if !signed && neg && mag == 0 { return None; }
     let bits = 8 * bytes as u32;
     let fits = if signed {
         if neg { mag <= 1u128 << (bits - 1) } else { mag < 1u128 << (bits - 1) }
